@@ -202,16 +202,30 @@ def replay_rbf(kind):
             Xs = rng.rand(ng, nl + 1)
             ref = kern(Xs, ev._X1ctrl).dot(ev._alpha / 1.7)
         else:
-            kern = K.DiffRBF(length_scale=ls)
-            Xc = rng.rand(nctrl, 2, nl)
+            kern = K.DiffConstantKernel(1.7) * K.DiffRBF(length_scale=ls)      # each factor of the spin kernel carries the constant: c^2 in the product
+            Xc = rng.rand(2, nctrl, nl)
             al = rng.rand(nctrl)
             ev = X.SpinRBFEvaluator(kern, Xc, al)
             Xs = rng.rand(2, ng, nl)
-            ref = (kern(Xs[0], Xc[:, 0]) * kern(Xs[1], Xc[:, 1]) + kern(Xs[0], Xc[:, 1]) * kern(Xs[1], Xc[:, 0])).dot(al)
+            ref = (kern(Xs[0], Xc[0]) * kern(Xs[1], Xc[1]) + kern(Xs[0], Xc[1]) * kern(Xs[1], Xc[0])).dot(al)
         r0 = rng.rand(ng)
         res, dres = ev(Xs, res=r0.copy(), dres=np.zeros(Xs.shape))
         err = float(np.max(np.abs(res - r0 - ref)))
-        return {"reproduced": bool(err > 1e-10), "kind": kind, "max_abs_err_value": err}
+        # the gradient too, and on a SECOND call of the same evaluator object with the same block shape (state that outlives a call), against central differences
+        d0 = rng.rand(*Xs.shape)
+        res2, dres2 = ev(Xs, res=np.zeros(ng), dres=d0.copy())
+        gerr = 0.0
+        h = 1e-6
+        flat = Xs.reshape(-1)
+        for k in range(0, flat.size, max(1, flat.size // 7)):
+            vals = []
+            for sgn in (1, -1):
+                Y = flat.copy()
+                Y[k] += sgn * h
+                fresh = type(ev)(kern, ev._X1ctrl.copy() if kind != "spin" else Xc.copy(), (ev._alpha / 1.7).copy() if kind != "spin" else al.copy())
+                vals.append(float(fresh(Y.reshape(Xs.shape), res=np.zeros(ng), dres=np.zeros(Xs.shape))[0].sum()))
+            gerr = max(gerr, abs((dres2 - d0).reshape(-1)[k] - (vals[0] - vals[1]) / (2 * h)))
+        return {"reproduced": bool(err > 1e-10 or gerr > 1e-5), "kind": kind, "max_abs_err_value": err, "max_abs_err_gradient_on_second_call": gerr}
     return replay
 
 
@@ -494,6 +508,57 @@ def unit_simple(ctx):
             ctx.equal("linear: dres[%d,%d] = gradient" % (g, n_), [], dres[g, n_], tm.diff(val, X1[g, n_]), fql)
 
 
+def unit_project_grid(N, nctrl):
+    """project_kernel_onto_grid: the table of spline values is  fps[i1..iN] = sum_n alpha_n * prod_d k0s[d][n, i_d]  over ALL control points — in particular across
+    the chunks the N = 3 and N = 4 branches process the control points in (200 and 20 at a time).  Real function on symbolic arrays; control-point counts on both
+    sides of the chunk size (bounded in the counts, every entry symbolic)."""
+    def run(ctx):
+        it = ctx.interp
+        setup_interp(it)
+        setup_mapping(it, ctx)
+        mm = it.load_module(MMOD)
+        fq = [MMOD + ":project_kernel_onto_grid"]
+        m = 2
+        alpha = sym_array("a", (nctrl,))
+        k0s = [sym_array("k%d" % d, (nctrl, m)) for d in range(N)]
+        dims = [(0, 1, m)] * N
+        tag = "project_kernel_onto_grid[N=%d, %d control points]" % (N, nctrl)
+        try:
+            paths = all_paths(it, lambda: it.call(mm.ns["project_kernel_onto_grid"], [alpha.copy(), [k.copy() for k in k0s], dims], {}))
+        except (Unsupported, PyRaise) as e:
+            ctx.undecided("%s runs" % tag, str(e)[:200], fq)
+            return
+        ret, exc = returned(paths)
+        ctx.holds("%s returns" % tag, len(ret) == 1, "%s" % [str(p[1])[:200] for p in exc], fq)
+        if len(ret) != 1:
+            return
+        fps = np.asarray(ret[0][0][0], dtype=object)
+        ctx.holds("%s: table has one axis per dimension" % tag, fps.shape == (m,) * N, str(fps.shape), fq)
+        if fps.shape != (m,) * N:
+            return
+        for idx in np.ndindex(*fps.shape):
+            want = tm.mk_add(*[alpha[n] * tm.mk_mul(*[k0s[d][n, idx[d]] for d in range(N)]) for n in range(nctrl)])
+            ctx.equal("%s: table entry %s = sum over all control points" % (tag, list(idx)), [], fps[idx], want, fq, replay=replay_project_grid(N, nctrl))
+    return run
+
+
+def replay_project_grid(N, nctrl):
+    def replay(wit):
+        from pyvc import native
+        native.install_shim()
+        from ciderpress.models.kernel_plans.map_tools import project_kernel_onto_grid
+        rng = np.random.RandomState(3)
+        m = 3
+        alpha = rng.randn(nctrl)
+        k0s = [rng.randn(nctrl, m) for _ in range(N)]
+        fps, _ = project_kernel_onto_grid(alpha, k0s, [(0.0, 1.0, m)] * N)
+        sub = "abcd"[:N]
+        ref = np.einsum("n," + ",".join("n" + c for c in sub) + "->" + sub, alpha, *k0s)
+        err = float(np.max(np.abs(np.asarray(fps) - ref)))
+        return {"reproduced": bool(err > 1e-10), "max |table - sum over all control points|": err, "N": N, "control points": nctrl}
+    return replay
+
+
 def unit_arbf_args(ctx):
     """arbf_args: scale list has one entry per index combination, grouped by order, for symbolic ndim (count identities)."""
     it = ctx.interp
@@ -586,6 +651,8 @@ def units():
         u.append(("mapping/" + label, unit_mapping(label)))
     u.append(("mapping/simple+linear", unit_simple))
     u.append(("arbf_args", unit_arbf_args))
+    for N, nctrl in ((1, 3), (2, 3), (3, 2), (3, 201), (4, 2), (4, 21), (4, 41)):
+        u.append(("project-grid/N%d_n%d" % (N, nctrl), unit_project_grid(N, nctrl)))
     u.append(("get_dim", unit_get_dim))
     return u
 
